@@ -216,6 +216,7 @@ def run(tier='quick', seed=0, only=None, verbose=False):
     base += families.fam_hierarchy()[1:2] + families.fam_hierarchy()[5:6]
     base += families.fam_mixed_nodes(seed, n=2)
     base += families.fam_vectorization(seed, n=6, max_per_type=3)[2:5]
+    base += families.fam_twin_operators()          # twin operators whose names differ between the nodes of one group
     base += families.fam_edge_templates()[1:3]      # one edge template serving two vectorization groups
     # edges with gamma kernels (a ring of one kernel): the edge paths must keep their meaning under every declaration order
     base += [p for p in families.fam_gamma_fixed() if p[0] == 'F11x:identical-kernels' or p[0] == 'F11x:ring-decl-120']
